@@ -105,6 +105,7 @@ func (c05) Case(c *core.Ctx) {
 	defer ResetDefaults()
 	defer verifyKept(c, "c05-retained-output-changed")
 	c.Eval()
+	failedCalls(c, 8)
 	benign := r.Intn(4) == 0
 	ss := [5]string{c05str(r, benign), c05str(r, benign), c05str(r, benign), c05str(r, benign), c05str(r, benign)}
 	joined := strings.Join(ss[:], "\x00")
